@@ -128,6 +128,9 @@ func VfC09_ListenerStop() {
 		buf := make([]byte, 1)
 		conn.Read(buf) // serve until the connection goes away
 	})
+	if nd.Param("fields", 0) == 1 {
+		nd.Watch(l) // Serve, Stop and Drain share plain fields of the listener (the bound socket)
+	}
 	stopped := false
 	served := false
 	drain := nd.Bool("drain-first")
